@@ -27,6 +27,16 @@ template <typename S>
 struct In
 {
     Eigen::Matrix<S, Eigen::Dynamic, Eigen::Dynamic> given;
+    // how the matrix is handed over: 0 = the plain matrix, 1 = a block in the middle of a larger matrix filled with other numbers
+    // (an Eigen::Ref whose outer stride exceeds its row count; every compute() / constructor takes Eigen::Ref<const Matrix>)
+    int form = 0;
+    Eigen::Matrix<S, Eigen::Dynamic, Eigen::Dynamic> parent;
+    Eigen::Ref<const Eigen::Matrix<S, Eigen::Dynamic, Eigen::Dynamic>> arg() const
+    {
+        if (form == 0)
+            return given;
+        return parent.block(1, 2, given.rows(), given.cols());
+    }
     MatL H;
     ld scale = 1;
     bool nondiag = false;
@@ -225,6 +235,15 @@ static In<S> make(vf::Draw& d, vf::Case& c, bool tridiag, int pat, Index n)
             if (i != j && in.H(i, j) != 0)
                 in.nondiag = true;
     in.given = given;
+    in.form = (int) d.pick("input_form", 2);
+    if (in.form == 1)
+    {
+        in.parent = Eigen::Matrix<S, Eigen::Dynamic, Eigen::Dynamic>::Constant(n + 4, n + 3, (S) 3.25);
+        in.parent.block(1, 2, n, n) = given;
+        c.cls("input/block_of_larger_matrix");
+    }
+    else
+        c.cls("input/plain_matrix");
     return in;
 }
 
@@ -298,11 +317,11 @@ static void tridiag_case(vf::Draw& d, vf::Case& c, int pat, Index n)
     {
         if (d.flag("ctor_computes"))
         {
-            Spectra::TridiagEigen<S> e2(in.given);
+            Spectra::TridiagEigen<S> e2(in.arg());
             eig = e2;
         }
         else
-            eig.compute(in.given);
+            eig.compute(in.arg());
     }
     catch (const std::runtime_error&)
     {
@@ -421,7 +440,7 @@ static void schur_case(vf::Draw& d, vf::Case& c, int pat, Index n)
     Spectra::UpperHessenbergSchur<S> schur;
     try
     {
-        schur.compute(in.given);
+        schur.compute(in.arg());
     }
     catch (const std::runtime_error&)
     {
@@ -456,11 +475,11 @@ static void hesseig_case(vf::Draw& d, vf::Case& c, int pat, Index n)
     {
         if (d.flag("ctor_computes"))
         {
-            Spectra::UpperHessenbergEigen<S> e2(in.given);
+            Spectra::UpperHessenbergEigen<S> e2(in.arg());
             eig = e2;
         }
         else
-            eig.compute(in.given);
+            eig.compute(in.arg());
     }
     catch (const std::runtime_error&)
     {
